@@ -44,7 +44,7 @@ def cells(tier, seed):
 def explore_opts(params, tier):
     # cat_rows builds its inverse root with stable_pinverse, which adds a 1e-6 jitter when |R_ii| < 1e-6: on that branch the exact
     # identity is off by design, below the replay tolerance -> such counterexamples are inconclusive, not engine errors
-    return {"timeout_s": 2.0 if tier == "quick" else 60.0, "max_paths": 4, "norm_first": True, "path_budget_s": 90.0, "engine_opts": {},
+    return {"timeout_s": 2.0 if tier == "quick" else 60.0, "max_paths": 4, "norm_first": True, "path_budget_s": 90.0, "engine_opts": {"floor_cut": True},
             "on_nonreplay": "inconclusive" if params.get("derive") == "cat_rows" else "error"}
 
 
@@ -55,7 +55,8 @@ def describe(tier):
         "outside": ["Lanczos / stochastic queries (two runs draw different noise)", "sampling", "settings changing between queries"],
         "assumptions": ["'equals what a fresh copy returns' is checked through the defining identity of each query on the dense reference "
                         "(factorisations are not unique), after every query of the history, on the SAME object",
-                        "after a derivation every entry found in the derived object's cache under a factorisation key must factorise the derived matrix"],
+                        "after a derivation every entry found in the derived object's cache under a factorisation key must factorise the derived matrix",
+                        "numerical floors (eigenvalue clamp at 1e-7 in Kronecker logdet / inverse roots) are assumed not to be hit (counted under generic_case_cuts)"],
     }
 
 
